@@ -1283,6 +1283,67 @@ def r03x(rep, F):
             (bad[0], bad[1], bad[2], bad[3], bad[1] % bad[0], bad[1] % bad[0] + 1))
 
 
+class ExactNeedsGoalTest(paths.Client):
+    """auto = True once a goal test (Goal::isSatisfied) succeeded on this path"""
+    track = 'vars'
+    fork_bools = True
+
+    def __init__(self, fn, relevant):
+        self.relevant = relevant
+        self.bad = []
+        self.regs = 0
+
+    def init(self, fn):
+        return False
+
+    def learn(self, fn, node, value, auto, ctx):
+        if value is True and (node.get('callee') or '').endswith('::isSatisfied') and 'Goal' in (node.get('callee') or ''):
+            return True
+        return auto
+
+    def on_node(self, fn, node, auto, ctx):
+        if (node.get('callee') or '').endswith('ProblemDefinition::addSolutionPath') and len(args(fn, node)) >= 2:
+            self.regs += 1
+            v = ctx.eval(args(fn, node)[1])
+            if v is False and not auto:
+                self.bad.append((node['id'], ctx.path()))
+        return auto
+
+
+def r03y(rep, F, rule='R03y', names=(G_ + 'PDST::solve', 'ompl::control::PDST::solve')):
+    rep.rule(rule, 'an exact registration needs a goal test that succeeded in THIS call: in the PDST planners (which keep their solution motion '
+                     'across calls and derive the approximate flag from it) every path that reaches addSolutionPath(path, approximate = false, ...) '
+                     'has passed a Goal::isSatisfied(...) that returned true -- for the new motion, or for the preserved one re-tested at the start '
+                     'of the call.  A flag derived from "a solution motion exists" alone is stale: a resumed call that adds nothing re-registers '
+                     'the old approximate path as exact')
+    n = 0
+    for name in names:
+        for f in F.by_name.get(name, []):
+            if not f.body:
+                continue
+            regs = [c for c in f.walk() if (c.get('callee') or '').endswith('ProblemDefinition::addSolutionPath') and len(args(f, c)) >= 2]
+            if not regs:
+                continue
+            fl = key(f, args(f, regs[0])[1])
+            if fl is None:
+                continue
+            rel = {fl}
+            defs_ = [x for x in f.walk() if x['k'] == 'DeclStmt']
+            for ds in defs_:
+                for d in ds.get('decls', []):
+                    if (d.get('ty') or '').replace('const ', '') == 'bool':
+                        rel.add('%s#%d' % (d['name'], d['did']))
+            n += 1
+            cl = ExactNeedsGoalTest(f, rel)
+            paths.run_function(f, cl, F)
+            ok = not cl.bad
+            rep.add(rule, f.name, 'exact-needs-goal-test', ok, f.where(cl.bad[0][0]) if cl.bad else f.where(regs[0]),
+                    'every exact registration follows a successful goal test' if ok else
+                    'addSolutionPath(..., approximate = false, ...) is reached on a path on which no goal test succeeded in this call: the flag is '
+                    'derived from state kept from an earlier call', cl.bad[0][1] if cl.bad else None)
+    rep.require_count(rule, 'PDST solve functions', n, len(names))
+
+
 def run(rep):
     units = P.geometric_units() + P.control_units() + P.multilevel_units() + P.base_units()
     F = facts.load_units(units)
@@ -1315,6 +1376,7 @@ def run(rep):
     r03t(rep, F, solves)
     r03v(rep, F)
     r03x(rep, F)
+    r03y(rep, F)
     # R03w: what a resumed solve re-registers describes the path it registers (C01's R01y under C03's id)
     from rules import c01_informed
     c01_informed.r01y(rep, F, rule='R03w')
